@@ -127,7 +127,7 @@ Proof.
 Qed.
 Lemma ow_take_hi m i d : 0 <= i <= len m -> take (i + len d) (overwrite m i d) = take i m ++ d.
 Proof.
-  intros. unfold overwrite. rewrite tk_app_r by (rewrite tk_len by lia; lia).
+  intros. pose proof (len_nonneg d). unfold overwrite. rewrite tk_app_r by (rewrite tk_len by lia; lia).
   rewrite tk_len by lia. f_equal. apply tk_app_exact. lia.
 Qed.
 Lemma ow_end m i d : 0 <= i -> i + len d = len m -> overwrite m i d = take i m ++ d.
